@@ -10,7 +10,7 @@ MODEL_NOTE = "Trusts go/parser, go/printer and reflection over go/ast as the def
 # id -> (level category, technique, level text, level note, design ref)
 CHECKS = {
     "C08": ("exploration",
-            "generated-input search (exhaustive prefix sweep of repository patches, token mutation, template-grammar ill-typed patches incl. targets with absent optional parts and a damaging first change, stress cases: deep nesting and many elisions on long lists, random bytes) against a crash/hang oracle; thorough adds coverage-guided go test -fuzz",
+            "generated-input search (exhaustive prefix sweep of repository patches, token mutation, template-grammar ill-typed patches incl. targets with absent optional parts and a damaging first change, stress cases: deep nesting, many elisions on long lists, one path imported many times on both sides; random bytes) against a crash/hang oracle; thorough adds coverage-guided go test -fuzz",
             "Every prefix of every repository patch plus thousands (quick) to millions (thorough) of generated malformed, truncated, token-mutated and ill-typed patches are run through patch.Parse/Apply behind recover and a watchdog, a sample through the CLI; any panic, hang or silent failure is a violation. Sampling cannot show absence, hence exploration.",
             "Trusts go test's process isolation and a 10 s watchdog as the definition of 'hang' on inputs of a few KB.",
             "DESIGN.md §4 C08"),
@@ -19,7 +19,7 @@ CHECKS = {
             "Thousands (quick) to hundreds of thousands (thorough) of (patch, file) pairs: every reference site must be rewritten and nothing that is not an instance may be; discrepancies are classified and only those contradicting C01 fail this check. Sampling over an unbounded space: exploration.",
             MODEL_NOTE, "DESIGN.md §4 C01"),
     "C02": ("exploration",
-            "generated-input search biased to repeated and identifier metavariables with consistency/kind near-misses, against the reference matcher (strict vs metavariable-relaxed matching attributes failures)",
+            "generated-input search biased to repeated and identifier metavariables with consistency/kind near-misses, against the reference matcher (strict vs metavariable-relaxed matching attributes failures); plus generated files for a metavariable that the import section binds",
             "Same machinery as C01 with patterns in which a metavariable occurs several times or is an identifier hole, and files holding consistent instances next to almost-consistent and wrong-kind near-misses; a near-miss that is rewritten, a consistent instance that is not, or a filler of another site appearing in a site fails the check.",
             MODEL_NOTE, "DESIGN.md §4 C02"),
     "C03": ("exploration",
@@ -47,7 +47,7 @@ CHECKS = {
             "Every content gopatch emits with exit 0 (in place, --print-only, --diff applied by a small applier, Apply result) is parsed; a reported error must name the file and leave it untouched.",
             "Trusts go/parser as the definition of 'parses as a Go source file' and the harness's unified-diff applier.", "DESIGN.md §4 C07"),
     "C09": ("exploration",
-            "generated change sequences (chains where change k+1 matches only code introduced by change k, failing steps, independent changes, lists emptied by an elision, steps whose result cannot be printed, package names shadowed by locals) delivered over -p / -P / stdin; differential oracle: combined run vs chain of single-change runs",
+            "generated change sequences (chains where change k+1 matches only code introduced by change k, failing steps, independent changes, lists emptied by an elision, steps whose result cannot be printed, package names shadowed by locals, result lists and operands whose printed form differs from the tree an earlier change leaves, a patch file named twice) delivered over -p / -P / stdin; differential oracle: combined run vs chain of single-change runs",
             "The combined CLI run over 2-5 changes split into 1..n patch files must equal, as canonical trees with parentheses looked through, the result of running the changes one at a time on each other's output; a failing step must make the combined run fail and leave the file untouched.",
             "Differential: both sides are gopatch; the single-change behaviour is judged by C01-C05. -p flags are given before -P.", "DESIGN.md §4 C09"),
     "C10": ("exploration",
@@ -71,7 +71,7 @@ CHECKS = {
             "A fixed 39-entry tree crossed with every target, spelling and working directory (about 1470 cases) plus generated trees/argument lists through the CLI; the set of changed files, the number of applications per file and the -v listing must equal the reference walk written from the property text.",
             "Trusts the file-system snapshot (type, mode, size, mtime, inode, sha256) and a reference walk over the tree model; corners the statement leaves open (roots inside excluded directories, a directory named through a symlink) are 'either'; a file named through a symlinked directory must be processed, once.", "DESIGN.md §4 C15"),
     "C16": ("fault_enumeration",
-            "fault enumeration at system-call granularity (own ptrace injector cross-checked against strace; prlimit --fsize) over generated trees and patches, plus a complete table of per-file failure kinds at every position",
+            "fault enumeration at system-call granularity (own ptrace injector cross-checked against strace; prlimit --fsize) over generated trees and patches, plus a complete table of per-file failure kinds at every position, and runs over hundreds of files interrupted by SIGINT / SIGTERM / SIGHUP",
             "For every recorded file-system call touching a target (open, write, chmod, rename, close, read) the call is failed with ENOSPC/EIO/EACCES and, separately, the process is killed on entry to it; size limits cut writes short; unparseable sources, rewrite errors, unparseable results, unreadable targets, missing paths and unloadable patches are placed at every position. Afterwards every Go file must hold its original or its complete patched bytes, failures must be reported with path and cause and a non-zero exit status, and other files must be unaffected.",
             "Trusts ptrace/strace injection and prlimit; torn writes inside one write system call and power loss after rename are out of reach.", "DESIGN.md §4 C16"),
     "C17": ("exploration",
